@@ -67,10 +67,20 @@ type batch struct {
 	deletes map[string]uint32
 }
 
+// reader is what a transaction reads the committed state through: the live database
+// for a write transaction (writers are serialised by muTr), a snapshot taken at
+// BeginReadTx for a read-only transaction.
+type reader interface {
+	Get(key []byte, ro *opt.ReadOptions) ([]byte, error)
+	NewIterator(slice *util.Range, ro *opt.ReadOptions) iterator.Iterator
+}
+
 type transaction struct {
 	readOnly bool
 	b        *batch
 	l        *LevelDB
+	r        reader
+	snap     *leveldb.Snapshot // read-only transactions; released by Rollback/Commit
 
 	cache map[db.BucketMeta]*levelBucket
 }
@@ -147,7 +157,7 @@ func joinBucketPath(arr ...string) string {
 // inside tx: the stored entry overlaid with the puts and deletes pending in
 // the transaction's own batch.
 func (tx *transaction) bucketExists(key []byte) (bool, error) {
-	_, err := tx.l.ldb.Get(key, nil)
+	_, err := tx.r.Get(key, nil)
 	if err != nil && err != leveldb.ErrNotFound {
 		return false, err
 	}
@@ -176,15 +186,24 @@ func (l *LevelDB) BeginTx() (db.DBTransaction, error) {
 		readOnly: false,
 		b:        newBatch(),
 		l:        l,
+		r:        l.ldb,
 		cache:    make(map[db.BucketMeta]*levelBucket),
 	}, nil
 }
 
 // BeginReadTx ...
+// A read-only transaction sees the database as of this call: all its reads go to
+// one snapshot, so a commit landing between two reads cannot be observed half-way.
 func (l *LevelDB) BeginReadTx() (db.ReadTransaction, error) {
+	snap, err := l.ldb.GetSnapshot()
+	if err != nil {
+		return nil, err
+	}
 	return &transaction{
 		readOnly: true,
 		l:        l,
+		r:        snap,
+		snap:     snap,
 		cache:    make(map[db.BucketMeta]*levelBucket),
 	}, nil
 }
@@ -213,7 +232,7 @@ func (tx *transaction) BucketNames() (names []string, err error) {
 
 	prefix := []byte(joinBucketPath(bucketNameBucket, topLevelBucketDepth, ""))
 
-	iter := tx.l.ldb.NewIterator(util.BytesPrefix(prefix), nil)
+	iter := tx.r.NewIterator(util.BytesPrefix(prefix), nil)
 	defer iter.Release()
 
 	names = make([]string, 0)
@@ -337,6 +356,8 @@ func (tx *transaction) DeleteTopLevelBucket(name string) error {
 func (tx *transaction) Rollback() error {
 	if !tx.readOnly {
 		tx.l.muTr.Unlock()
+	} else if tx.snap != nil {
+		tx.snap.Release() // idempotent
 	}
 	return nil
 }
@@ -344,7 +365,7 @@ func (tx *transaction) Rollback() error {
 // Commit ...
 func (tx *transaction) Commit() error {
 	if tx.readOnly {
-		return nil
+		return tx.Rollback()
 	}
 	err := tx.l.ldb.Write(tx.b.b, nil)
 	tx.l.muTr.Unlock()
@@ -448,7 +469,7 @@ func (b *levelBucket) BucketNames() (names []string, err error) {
 	ss = append(ss, "")
 	prefix := []byte(joinBucketPath(bucketNameBucket, joinBucketPath(ss...)))
 
-	iter := b.tx.l.ldb.NewIterator(util.BytesPrefix(prefix), nil)
+	iter := b.tx.r.NewIterator(util.BytesPrefix(prefix), nil)
 	defer iter.Release()
 
 	names = make([]string, 0)
@@ -531,7 +552,7 @@ func deleteBucket(b *levelBucket) error {
 
 	// delete k/v in bucket
 	prefix := []byte(joinBucketPath(b.path, ""))
-	iter := b.tx.l.ldb.NewIterator(util.BytesPrefix(prefix), nil)
+	iter := b.tx.r.NewIterator(util.BytesPrefix(prefix), nil)
 	for iter.Next() {
 		_, deleted := b.tx.b.Get(iter.Key())
 		if deleted {
@@ -591,7 +612,7 @@ func (b *levelBucket) Get(key []byte) ([]byte, error) {
 		return nil, nil
 	}
 
-	value, err := b.tx.l.ldb.Get(key, nil)
+	value, err := b.tx.r.Get(key, nil)
 	if err != nil {
 		if err == leveldb.ErrNotFound {
 			if b.tx.readOnly {
@@ -635,7 +656,7 @@ func (b *levelBucket) Clear() error {
 	}
 	prefix := []byte(joinBucketPath(b.path, ""))
 
-	iter := b.tx.l.ldb.NewIterator(util.BytesPrefix(prefix), nil)
+	iter := b.tx.r.NewIterator(util.BytesPrefix(prefix), nil)
 	defer iter.Release()
 
 	for iter.Next() {
@@ -667,7 +688,7 @@ func (b *levelBucket) GetByPrefix(prefix []byte) ([]*db.Entry, error) {
 	entries := make([]*db.Entry, 0)
 	set := make(map[string]struct{})
 
-	iter := b.tx.l.ldb.NewIterator(util.BytesPrefix(innerPrefix), nil)
+	iter := b.tx.r.NewIterator(util.BytesPrefix(innerPrefix), nil)
 	defer iter.Release()
 
 	for iter.Next() {
@@ -876,7 +897,7 @@ func (b *levelBucket) NewIterator(slice *db.Range) db.Iterator {
 		b:       b,
 		slice:   slice,
 		iterEnd: false,
-		iter: b.tx.l.ldb.NewIterator(&util.Range{
+		iter: b.tx.r.NewIterator(&util.Range{
 			Start: slice.Start,
 			Limit: slice.Limit,
 		}, nil),
